@@ -150,9 +150,10 @@ Fixpoint render_forest (d : dforest) : str :=
   end.
 
 (* names of generic elements: not the three the reader looks for; HTML void elements and raw-text elements
-   (html.parser treats their content differently) are outside the sublanguage *)
+   (html.parser treats their content differently) are outside the sublanguage, and so are template / rt / rp: bs4 files
+   the strings below such an element under string classes that get_text() skips (audit 7) *)
 Definition special_names : list str :=
-  [lit "div"; lit "p"; lit "tt"; lit "br"; lit "area"; lit "base"; lit "col"; lit "embed"; lit "hr"; lit "img"; lit "input"; lit "keygen"; lit "link"; lit "menuitem"; lit "meta"; lit "param"; lit "source"; lit "track"; lit "wbr"; lit "basefont"; lit "bgsound"; lit "command"; lit "frame"; lit "image"; lit "isindex"; lit "nextid"; lit "spacer"; lit "script"; lit "style"; lit "title"; lit "textarea"].
+  [lit "div"; lit "p"; lit "tt"; lit "br"; lit "area"; lit "base"; lit "col"; lit "embed"; lit "hr"; lit "img"; lit "input"; lit "keygen"; lit "link"; lit "menuitem"; lit "meta"; lit "param"; lit "source"; lit "track"; lit "wbr"; lit "basefont"; lit "bgsound"; lit "command"; lit "frame"; lit "image"; lit "isindex"; lit "nextid"; lit "spacer"; lit "script"; lit "style"; lit "title"; lit "textarea"; lit "template"; lit "rt"; lit "rp"].
 Definition generic_name (n : str) : bool := name_ok n && negb (existsb (str_eqb n) special_names).
 (* an empty-element tag may also be a <style .../> *)
 Definition empty_name (n : str) : bool :=
